@@ -54,7 +54,7 @@ macro_rules! fmt_body {
 
 crate::harnesses! {
     /// parse_number under syntax flags F_REQ_INT == documented grammar; strings len <= 5 over {0 1 9 + - e E . a}.
-    /// @prop C12 C10
+    /// @prop C12 C10~
     /// @feat format radix_format
     /// @bound one of 17 instantiated flag combinations; input length <= 5 over {0 1 9 + - e E . a}
     /// @fn lexical-parse-float::parse::parse_number (flag-dependent branches)
@@ -63,7 +63,7 @@ crate::harnesses! {
     fn tokfmt_req_int() { fmt_body!(F_REQ_INT, 5) }
 
     /// parse_number under syntax flags F_REQ_FRAC == documented grammar; strings len <= 5 over {0 1 9 + - e E . a}.
-    /// @prop C12 C10
+    /// @prop C12 C10~
     /// @feat format radix_format
     /// @bound one of 17 instantiated flag combinations; input length <= 5 over {0 1 9 + - e E . a}
     /// @fn lexical-parse-float::parse::parse_number (flag-dependent branches)
@@ -72,7 +72,7 @@ crate::harnesses! {
     fn tokfmt_req_frac() { fmt_body!(F_REQ_FRAC, 5) }
 
     /// parse_number under syntax flags F_NOREQ_EXPD == documented grammar; strings len <= 5 over {0 1 9 + - e E . a}.
-    /// @prop C12 C10
+    /// @prop C12 C10~
     /// @feat format radix_format
     /// @bound one of 17 instantiated flag combinations; input length <= 5 over {0 1 9 + - e E . a}
     /// @fn lexical-parse-float::parse::parse_number (flag-dependent branches)
@@ -81,7 +81,7 @@ crate::harnesses! {
     fn tokfmt_noreq_expd() { fmt_body!(F_NOREQ_EXPD, 5) }
 
     /// parse_number under syntax flags F_NOREQ_MANT == documented grammar; strings len <= 5 over {0 1 9 + - e E . a}.
-    /// @prop C12 C10
+    /// @prop C12 C10~
     /// @feat format radix_format
     /// @bound one of 17 instantiated flag combinations; input length <= 5 over {0 1 9 + - e E . a}
     /// @fn lexical-parse-float::parse::parse_number (flag-dependent branches)
@@ -99,7 +99,7 @@ crate::harnesses! {
     fn tokfmt_req_all() { fmt_body!(F_REQ_ALL, 5) }
 
     /// parse_number under syntax flags F_NO_EXP == documented grammar; strings len <= 5 over {0 1 9 + - e E . a}.
-    /// @prop C12 C10
+    /// @prop C12 C10~
     /// @feat format radix_format
     /// @bound one of 17 instantiated flag combinations; input length <= 5 over {0 1 9 + - e E . a}
     /// @fn lexical-parse-float::parse::parse_number (flag-dependent branches)
@@ -108,7 +108,7 @@ crate::harnesses! {
     fn tokfmt_no_exp() { fmt_body!(F_NO_EXP, 5) }
 
     /// parse_number under syntax flags F_REQ_EXP == documented grammar; strings len <= 5 over {0 1 9 + - e E . a}.
-    /// @prop C12 C10
+    /// @prop C12 C10~
     /// @feat format radix_format
     /// @bound one of 17 instantiated flag combinations; input length <= 5 over {0 1 9 + - e E . a}
     /// @fn lexical-parse-float::parse::parse_number (flag-dependent branches)
@@ -117,7 +117,7 @@ crate::harnesses! {
     fn tokfmt_req_exp() { fmt_body!(F_REQ_EXP, 5) }
 
     /// parse_number under syntax flags F_NO_POS_EXP == documented grammar; strings len <= 5 over {0 1 9 + - e E . a}.
-    /// @prop C12 C10
+    /// @prop C12 C10~
     /// @feat format radix_format
     /// @bound one of 17 instantiated flag combinations; input length <= 5 over {0 1 9 + - e E . a}
     /// @fn lexical-parse-float::parse::parse_number (flag-dependent branches)
@@ -126,7 +126,7 @@ crate::harnesses! {
     fn tokfmt_no_pos_exp() { fmt_body!(F_NO_POS_EXP, 5) }
 
     /// parse_number under syntax flags F_REQ_EXP_SIGN == documented grammar; strings len <= 5 over {0 1 9 + - e E . a}.
-    /// @prop C12 C10
+    /// @prop C12 C10~
     /// @feat format radix_format
     /// @bound one of 17 instantiated flag combinations; input length <= 5 over {0 1 9 + - e E . a}
     /// @fn lexical-parse-float::parse::parse_number (flag-dependent branches)
@@ -135,7 +135,7 @@ crate::harnesses! {
     fn tokfmt_req_exp_sign() { fmt_body!(F_REQ_EXP_SIGN, 5) }
 
     /// parse_number under syntax flags F_NO_EXP_WO_FRAC == documented grammar; strings len <= 5 over {0 1 9 + - e E . a}.
-    /// @prop C12 C10
+    /// @prop C12 C10~
     /// @feat format radix_format
     /// @bound one of 17 instantiated flag combinations; input length <= 5 over {0 1 9 + - e E . a}
     /// @fn lexical-parse-float::parse::parse_number (flag-dependent branches)
@@ -144,7 +144,7 @@ crate::harnesses! {
     fn tokfmt_no_exp_wo_frac() { fmt_body!(F_NO_EXP_WO_FRAC, 5) }
 
     /// parse_number under syntax flags F_NO_FLOAT_LZ == documented grammar; strings len <= 5 over {0 1 9 + - e E . a}.
-    /// @prop C12 C10
+    /// @prop C12 C10~
     /// @feat format radix_format
     /// @bound one of 17 instantiated flag combinations; input length <= 5 over {0 1 9 + - e E . a}
     /// @fn lexical-parse-float::parse::parse_number (flag-dependent branches)
@@ -153,7 +153,7 @@ crate::harnesses! {
     fn tokfmt_no_float_lz() { fmt_body!(F_NO_FLOAT_LZ, 5) }
 
     /// parse_number under syntax flags F_CS_EXP == documented grammar; strings len <= 5 over {0 1 9 + - e E . a}.
-    /// @prop C12 C10
+    /// @prop C12 C10~
     /// @feat format radix_format
     /// @bound one of 17 instantiated flag combinations; input length <= 5 over {0 1 9 + - e E . a}
     /// @fn lexical-parse-float::parse::parse_number (flag-dependent branches)
@@ -162,7 +162,7 @@ crate::harnesses! {
     fn tokfmt_cs_exp() { fmt_body!(F_CS_EXP, 5) }
 
     /// parse_number under syntax flags F_REQ_EXP_NOREQ_MANT == documented grammar; strings len <= 5 over {0 1 9 + - e E . a}.
-    /// @prop C12 C10
+    /// @prop C12 C10~
     /// @feat format radix_format
     /// @bound one of 17 instantiated flag combinations; input length <= 5 over {0 1 9 + - e E . a}
     /// @fn lexical-parse-float::parse::parse_number (flag-dependent branches)
@@ -171,7 +171,7 @@ crate::harnesses! {
     fn tokfmt_req_exp_noreq_mant() { fmt_body!(F_REQ_EXP_NOREQ_MANT, 5) }
 
     /// parse_number under syntax flags F_REQ_EXP_REQ_SIGN == documented grammar; strings len <= 5 over {0 1 9 + - e E . a}.
-    /// @prop C12 C10
+    /// @prop C12 C10~
     /// @feat format radix_format
     /// @bound one of 17 instantiated flag combinations; input length <= 5 over {0 1 9 + - e E . a}
     /// @fn lexical-parse-float::parse::parse_number (flag-dependent branches)
@@ -180,7 +180,7 @@ crate::harnesses! {
     fn tokfmt_req_exp_req_sign() { fmt_body!(F_REQ_EXP_REQ_SIGN, 5) }
 
     /// parse_number under syntax flags F_NO_EXP_WO_FRAC_REQ_FRAC == documented grammar; strings len <= 5 over {0 1 9 + - e E . a}.
-    /// @prop C12 C10
+    /// @prop C12 C10~
     /// @feat format radix_format
     /// @bound one of 17 instantiated flag combinations; input length <= 5 over {0 1 9 + - e E . a}
     /// @fn lexical-parse-float::parse::parse_number (flag-dependent branches)
@@ -189,7 +189,7 @@ crate::harnesses! {
     fn tokfmt_no_exp_wo_frac_req_frac() { fmt_body!(F_NO_EXP_WO_FRAC_REQ_FRAC, 5) }
 
     /// parse_number under syntax flags F_NO_LZ_REQ_INT == documented grammar; strings len <= 5 over {0 1 9 + - e E . a}.
-    /// @prop C12 C10
+    /// @prop C12 C10~
     /// @feat format radix_format
     /// @bound one of 17 instantiated flag combinations; input length <= 5 over {0 1 9 + - e E . a}
     /// @fn lexical-parse-float::parse::parse_number (flag-dependent branches)
